@@ -35,3 +35,90 @@ package client
 //@ func NewClient
 //@   props C17
 //@   requires !isnil(p) && !isnil(cfg.Logger)
+
+// ---------------------------------------------------------------------------
+// Replies: each reply is handed to the waiter registered under the reply's own
+// request id, and a waiter gets a real message or an error (C16, C17)
+
+//@ func (c *Client) expectReply
+//@   props C16
+//@   requires c != nil
+
+//@ func (c *Client) waitForReply
+//@   props C16 C17
+//@   requires c != nil
+//@   ensures [reply-or-error] isnil(result1) ==> wellformed(result0)
+
+//@ func (c *Client) waitForReplyWithCancel
+//@   props C16 C17
+//@   requires c != nil && !isnil(ctx)
+//@   callsite Err : [context-reports-an-error-once-done] assume-after !isnil(result)
+//@   ensures [reply-or-error] isnil(result1) ==> wellformed(result0)
+//@   sendsite cancel wamp.Message : [cancel-names-this-call-and-the-configured-mode] is(m, *wamp.Cancel) && m.(*wamp.Cancel).Request == id && ch == method(c.sess.Peer, "Send")
+
+//@ func (c *Client) runSignalReply
+//@   props C16 C17
+//@   requires c != nil && wellformed(msg)
+//@   sendsite reply wamp.Message : [reply-goes-to-the-waiter-of-its-own-request] requestID in c.awaitingReply && ch == c.awaitingReply[requestID] && m == msg
+
+//@ func (c *Client) runReceiveFromRouter
+//@   props C16 C17
+//@   requires c != nil && wellformed(msg)
+//@   callsite runSignalReply : [signalled-under-the-request-id-carried-by-the-reply] arg0 == c && arg1 == msg && ((is(msg, *wamp.Registered) ==> arg2 == msg.(*wamp.Registered).Request) && (is(msg, *wamp.Subscribed) ==> arg2 == msg.(*wamp.Subscribed).Request) && (is(msg, *wamp.Unsubscribed) ==> arg2 == msg.(*wamp.Unsubscribed).Request) && (is(msg, *wamp.Unregistered) ==> arg2 == msg.(*wamp.Unregistered).Request) && (is(msg, *wamp.Result) ==> arg2 == msg.(*wamp.Result).Request) && (is(msg, *wamp.Published) ==> arg2 == msg.(*wamp.Published).Request) && (is(msg, *wamp.Error) ==> arg2 == msg.(*wamp.Error).Request))
+
+//@ func unexpectedMsgError
+//@   props C17
+//@   requires wellformed(msg)
+//@   ensures [an-error] !isnil(result)
+
+//@ func wampErrorString
+//@   props C17
+//@   requires werr != nil
+
+// ---------------------------------------------------------------------------
+// Goroutines started per call / invocation
+
+//@ chaninv *wamp.Invocation : v != nil
+//@ chaninv *wamp.Result : v != nil
+
+//@ func (c *Client) Subscribe
+//@   props C17
+//@   requires c != nil && fn != nil
+
+//@ func (c *Client) Register
+//@   props C17
+//@   requires c != nil && fn != nil
+
+//@ closure (c *Client) Call 1
+//@   props C17
+//@   captures progcb != nil && progChan != nil && progDone != nil
+
+//@ closure (c *Client) CallProgressive 1
+//@   props C17
+//@   captures progcb != nil && progChan != nil && progDone != nil
+
+//@ closure (c *Client) runHandleInvocation 1
+//@   props C17
+//@   captures c != nil && cancel != nil && !isnil(ctx) && handler != nil && handlerQueue != nil
+
+//@ closure (c *Client) runHandleInvocation 1.1
+//@   props C17
+//@   captures c != nil && !isnil(ctx) && handler != nil && handlerQueue != nil && resChan != nil
+
+//@ mapinv map[string]AuthFunc : v != nil
+//@ fieldinv RPCError.Err : v != nil
+
+//@ func handleCRAuth
+//@   props C17
+//@   requires !isnil(peer) && challenge != nil
+//@   ensures [message-or-error] isnil(result1) ==> wellformed(result0)
+
+//@ func joinRealm
+//@   props C17
+//@   perreturn
+//@   requires !isnil(peer)
+//@   ensures [welcome-or-error] isnil(result1) ==> result0 != nil
+
+//@ func (c *Client) CallProgressive
+//@   props C17
+//@   requires c != nil && !isnil(ctx) && sendProg != nil
